@@ -20,19 +20,54 @@ from kernel import E, ok_payload, strip, try_payload, unmut
 
 def trace_local(an, op):
     """follow plain moves/copies back to the local that first held the value"""
-    if op.kind not in ("copy", "move") or not op.place.is_local():
+    if op.kind not in ("copy", "move"):
         return None
+    if not op.place.is_local():
+        op = _field_of_aggregate(an, op.place)
+        if op is None or op.kind not in ("copy", "move") or not op.place.is_local():
+            return None
     cur = op.place.local
     for _ in range(20):
         d = an.unique_def(cur)
         if d is None:
             return cur
         rv = getattr(d[2], "rv", None)
-        if rv is not None and rv.kind == "use" and rv.ops[0].kind in ("copy", "move") and rv.ops[0].place.is_local():
-            cur = rv.ops[0].place.local
-            continue
+        if rv is not None and rv.kind == "use" and rv.ops[0].kind in ("copy", "move"):
+            o = rv.ops[0]
+            if not o.place.is_local():
+                o = _field_of_aggregate(an, o.place)
+            if o is not None and o.kind in ("copy", "move") and o.place.is_local():
+                cur = o.place.local
+                continue
         return cur
     return cur
+
+
+def _field_of_aggregate(an, place):
+    """the operand stored in field f when `place` is `L.f`, L (possibly reached
+    through plain moves) is built once by a struct/tuple aggregate and never
+    written in part or mutably borrowed afterwards (a value struct that only
+    carries its fields from one helper to the next)"""
+    if len(place.proj) != 1 or not (isinstance(place.proj[0], dict) and "f" in place.proj[0]):
+        return None
+    L = place.local
+    for _ in range(10):
+        if an.mutation_points().get(L):
+            return None
+        d = an.unique_def(L)
+        if d is None:
+            return None
+        rv = getattr(d[2], "rv", None)
+        if rv is None:
+            return None
+        if rv.kind == "use" and rv.ops[0].kind in ("copy", "move") and rv.ops[0].place.is_local():
+            L = rv.ops[0].place.local
+            continue
+        if rv.kind == "aggregate" and rv.j.get("agg") in ("adt", "tuple"):
+            i = place.proj[0]["f"]
+            return rv.ops[i] if isinstance(i, int) and i < len(rv.ops) else None
+        return None
+    return None
 
 
 def key_param(e):
